@@ -29,6 +29,10 @@ CHECKS = {
          "Exploration: all 36 filters + 17 tests + 2 functions x 59 receivers of every kind x every combination of a 35-value argument pool on each keyword (922k cells, enumerated completely in the quick tier), then 450k generated cells (x30 thorough) with Unicode text incl. special-casing characters, numerals in every base with prefixes/signs/fractions, boundary numbers, and well-typed arguments so the contracts (not only the error paths) are exercised.",
          "Trusted base: the reference implementations in harness/src/props/c17.rs, written from docs/doc comments/unit-test tables; Rust std for to_uppercase/to_lowercase/parse::<f64>. Cells whose contract the documentation leaves open are totality-only (label spec:total, counted).",
          "DESIGN.md section 4 C17, Appendix B"),
+ "C19": ("round-trip T -> Value -> T (by value and by reference) over a family of 63 concrete Rust types with hand-written proptest strategies; differential of the converted Value and of what `{{ v }}` prints against a reference model computed from the same Rust value; metamorphic interchangeability of Context::insert / insert_value / from_serialize; refusal of unrepresentable map keys",
+         "Exploration: 6k generated values per type (quick; x30 thorough) for every primitive width (with the extremes of every narrower width), f32/f64 incl. NaN/inf/-0/subnormals, char, String around the 21-byte inline threshold, Option, Vec, Box, tuples 1-4, unit/newtype/tuple structs, structs, every enum variant shape, BTreeMap/HashMap keyed by String/char/bool/every integer width, and nested combinations.",
+         "Trusted base: serde derive and the hand-written reference models (Fam::model). Option directly in Option and Option<()> excluded per the statement; NaN payload bits not compared.",
+         "DESIGN.md section 4 C19"),
 }
 NOT_BUILT_REASON = "check not built yet (work in progress in this session); see DESIGN.md section 4 for the planned generated-input check"
 ALL = ["C%02d" % i for i in range(1, 21)]
